@@ -23,6 +23,7 @@ package logic
 //   acc <gi> <ver> <family> <operands>    run one access as transaction gi with a version-<ver> program
 //       account operand: i<n> (integer index) or an address token; asset / app operands: integers (id or slot)
 //       balance A | minbal A | acctp A | hold A X | asap X | appp X | gex X | opted A X | lget A | lgetx A X | lput A | ldel A
+//       (box name operand N: `_` = the empty name)
 //       bcreate N S | bput N S | bdel N | bget N | blen N | xbcreate P N S | xbput P N S | xbdel P N | xbget P N | xblen P N
 //       ifa <field> A | ifs <field> X | ifp <field> X                (itxn_begin; itxn_field)
 //       isub axfer X rcv asnd aclose snd | isub afrz X acct | isub appl P a,.. s,.. p,..   (… itxn_submit; z / 0 / - = field not set)
@@ -386,7 +387,12 @@ func verifC35Source(f []string) string {
 		}
 		return "0"
 	}
-	name := func(i int) string { return "byte \"" + arg(i) + "\"" }
+	name := func(i int) string {
+		if arg(i) == "_" {
+			return "int 0; bzero" // the assembler's type tracking refuses a literal empty box name
+		}
+		return "byte \"" + arg(i) + "\""
+	}
 	switch fam {
 	case "balance":
 		return verifC35AcctPush(arg(0)) + "; balance; pop; int 1"
@@ -525,9 +531,9 @@ func verifC35ClassEval(msg string) string {
 		return "rbudget"
 	case strings.Contains(msg, "pre-sharedResources program cannot be invoked with tx.Access"):
 		return "preaccess"
-	case strings.Contains(msg, "write budget exceeded"):
-		return "wbudget"
 	}
+	// "write budget exceeded ... while creating|updating app" (considerBudgetProgramWrites after an ACCEPTING program of a
+	// create/update/delete call) is the program-size write budget, not a resource gate: the access itself went through.
 	return "ok"
 }
 
@@ -667,6 +673,7 @@ type verifC35Gen struct {
 	pAsset   []uint64
 	pApp     []uint64
 	boxNames []string
+	pBox     [][2]string // (app, name) of box references declared somewhere in the group
 }
 
 var verifC35Versions = []uint64{2, 3, 4, 5, 5, 6, 6, 7, 7, 8, 8, 8, 9, 9, 9, 10, 12, 13, 13, 14, 14}
@@ -890,8 +897,25 @@ func (g *verifC35Gen) collect(txs []*verifC35GenTx) {
 				g.pApp = append(g.pApp, p)
 				addr(fmt.Sprintf("p%d", p))
 			}
+			for _, b := range t.bx {
+				p := strings.SplitN(b, ":", 2)
+				idx := int(verifC35U(p[0]))
+				if idx == 0 {
+					g.pBox = append(g.pBox, [2]string{fmt.Sprint(t.aid()), p[1]})
+				} else if idx <= len(t.fp) {
+					g.pBox = append(g.pBox, [2]string{fmt.Sprint(t.fp[idx-1]), p[1]})
+				}
+			}
 			for _, e := range t.al {
 				switch e[0] {
+				case 'B':
+					p := strings.SplitN(e[1:], ".", 2)
+					idx := int(verifC35U(p[0]))
+					if idx == 0 {
+						g.pBox = append(g.pBox, [2]string{fmt.Sprint(t.aid()), p[1]})
+					} else if idx <= len(t.al) && t.al[idx-1][0] == 'P' {
+						g.pBox = append(g.pBox, [2]string{t.al[idx-1][1:], p[1]})
+					}
 				case 'A':
 					addr(e[1:])
 				case 'S':
@@ -948,7 +972,10 @@ func (g *verifC35Gen) opAcct(t *verifC35GenTx) string {
 		n = len(t.al)
 	}
 	if t.ver < 4 || g.rng.Chance(30) {
-		return fmt.Sprintf("i%d", g.rng.Intn(n+2))
+		if g.rng.Chance(12) {
+			return fmt.Sprintf("i%d", n+1+g.rng.Intn(2))
+		}
+		return fmt.Sprintf("i%d", g.rng.Intn(n+1))
 	}
 	return g.opAddr()
 }
@@ -981,7 +1008,17 @@ func (g *verifC35Gen) opAppRef(t *verifC35GenTx) uint64 {
 func (g *verifC35Gen) genOp(t *verifC35GenTx) string {
 	v := t.ver
 	for tries := 0; tries < 50; tries++ {
-		switch g.rng.Intn(24) {
+		k := g.rng.Intn(24)
+		if v >= 8 && g.rng.Chance(18) {
+			k = 15
+		}
+		if v >= 13 && g.rng.Chance(12) {
+			k = 17
+		}
+		if v >= 6 && g.rng.Chance(6) {
+			k = 23
+		}
+		switch k {
 		case 0:
 			return "balance " + g.opAcct(t)
 		case 1:
@@ -1015,8 +1052,14 @@ func (g *verifC35Gen) genOp(t *verifC35GenTx) string {
 		case 15, 16:
 			if v >= 8 {
 				nm := g.boxName()
+				if len(g.pBox) > 0 && g.rng.Chance(60) {
+					nm = g.pBox[g.rng.Intn(len(g.pBox))][1]
+				}
 				if nm == "" && g.rng.Chance(80) {
 					nm = "b1"
+				}
+				if nm == "" {
+					nm = "_"
 				}
 				sz := []int{0, 10, 40, 60, 100, 150, 260}[g.rng.Intn(7)]
 				switch g.rng.Intn(5) {
@@ -1040,6 +1083,13 @@ func (g *verifC35Gen) genOp(t *verifC35GenTx) string {
 				p := g.opApp()
 				if g.rng.Chance(25) {
 					p = t.aid()
+				}
+				if len(g.pBox) > 0 && g.rng.Chance(65) {
+					b := g.pBox[g.rng.Intn(len(g.pBox))]
+					p = verifC35U(b[0])
+					if b[1] != "" {
+						nm = b[1]
+					}
 				}
 				sz := []int{0, 10, 40, 60, 100, 150}[g.rng.Intn(6)]
 				switch g.rng.Intn(5) {
@@ -1228,7 +1278,7 @@ func verifC35GenCase(rng *vh.Rng) []string {
 }
 
 func verifC35Generate() []string {
-	rng := vh.NewRng(vh.Seed()*7919 + 35)
+	rng := vh.NewRng(vh.NewRng(vh.Seed()+3500).U64()) // hashed: consecutive seeds must not give shifted copies of one stream
 	n := vh.Budget(2500, 60000)
 	var ops []string
 	for i := 0; i < n; i++ {
